@@ -1,6 +1,7 @@
 (* Extraction of the C19 model (symbol tables of a family of interpreters) and of the
    injective-table specification to OCaml (ExtrOcamlBasic only). Run coqc from the target directory. *)
 From Coq Require Import ZArith ExtrOcamlBasic.
-Require Import ZV.Model.Symtab.
+Require Import ZV.Model.Symtab ZV.Model.SymtabScript.
 Extraction "model.ml" Z.add Z.mul Z.opp Z.div_eucl Z.of_nat Z.to_nat Z.compare
-  run step inv_check compare_symbol compare_symbols hash_symbol spec_check spec_accepts name_eqb itoa lookup_name.
+  run step inv_check compare_symbol compare_symbols hash_symbol spec_check spec_accepts name_eqb itoa lookup_name
+  expand script_ops script_layout members_valid layout_ok scope_run nscope_run site_prefixes.
